@@ -93,6 +93,12 @@ def check(ck):
         ctor_ids = set(m.id for m in gl.live_nodes() for cc in node_calls(m) if isinstance(cc.func, ast.Name) and cc.func.id != "load" and (
             any(isinstance(a, ast.Starred) for a in cc.args) or any(k.arg is None for k in cc.keywords)))
         defs = prov.rd_of(gl).get(n.id, {}).get(dump(c.args[0]), frozenset()) if isinstance(c.args[0], ast.Name) else frozenset()
+        for d_ in defs:
+            dn_ = gl.nodes[d_]
+            if d_ not in ctor_ids and dn_.kind == "stmt" and isinstance(dn_.ast, ast.Assign) and isinstance(dn_.ast.value, ast.Call) and \
+                    isinstance(dn_.ast.value.func, ast.Name) and prov.rd_of(gl).get(d_, {}).get(dn_.ast.value.func.id):
+                raise AnalysisError("the object receiving the fields is built through the local callable `%s` (indirect constructor call): not modelled"
+                                    % dn_.ast.value.func.id)
         new_ok = bool(defs) and set(defs) <= ctor_ids
         ck.require(new_ok, "C07.2", "%s: setattr target" % q.fn(fl), "the object just constructed",
                    "fields are set on %s, not on the object constructed from the descriptor" % prov.show(t0)[:80], q.loc(fl, n))
